@@ -387,8 +387,15 @@ def run_actions(actions, phase, ctx):
             os.chdir(d)
             emit('chdir', ctx=ctx, to=a.get('path', 'work'))
         elif do == 'write_file':
-            with open(a['path'], 'w') as f:
+            path = a['path']
+            if not os.path.isabs(path):
+                # relative to the world's root directory
+                path = os.path.join(os.path.dirname(
+                    os.environ.get('ZTR_WORLD', '')), path)
+                os.makedirs(os.path.dirname(path), exist_ok=True)
+            with open(path, 'w') as f:
                 f.write(a.get('text', ''))
+            emit('file.written', ctx=ctx, path=a['path'])
         elif do == 'mutate_argv':
             # a test that drives a main() through sys.argv and changes the
             # list in place without putting it back
